@@ -21,6 +21,23 @@
    (SmallMap struct vs *BigMap pointer); the harness instantiates every behaviour for
    arrays and for maps.
 
+   Three further families (added after seeding round 5):
+   - elements come in print-alike pairs (an integer and the float of the same numeric value: Retype replaces an
+     element by its twin): two containers can print the same and still be different values, so every probe also
+     prints, per binding, what a user function applied to the binding says about the kinds of its elements - a
+     function of a container follows the container's value, whatever was passed to that function before;
+   - a container that is the parameter (or the `..`) of a call is a binding of that call's frame: Frames copies x
+     through a function that makes an inner call with the same parameter names (recursively, or a closure made
+     inside it) before it hands its own parameter back.  OwnFrames = FALSE: the inner call rebinds the parameter it
+     finds in the enclosing frame (the outer call then returns what the inner one was given);
+   - maps (Kind = "map") also grow by index assignment under a new key that sorts before the first, between the
+     last two or after the last key (Insert), and are asked to delete a key they do not hold that lies next to
+     one they hold (DelAbsent, no change).  Which keys are "next to" each other is the harness's key chain: besides
+     the plain one (integers with the halves between them) chains of integers and floats around +-2^31, 2^32,
+     2^53, 2^63 where neighbouring keys differ by 1 and are told apart only by an exact comparison.
+   Kind also switches off the operations that have no form for the other kind (Concat for maps; Overwrite, Insert,
+   DelAbsent for arrays).
+
    GEN: every explored transition is emitted with its witness history and the predicted
    value of every variable; the harness replays it on the real interpreter at several
    sizes on both sides of the thresholds.                                              *)
@@ -29,7 +46,10 @@ EXTENDS Integers, Sequences, FiniteSets, TLC, Json, GrolPrims
 CONSTANTS Vars,          \* e.g. {"a", "b", "c"}
           Sizes,         \* initial lengths of variable "a" explored, e.g. {0, 1, 2, 3}
           Small,         \* threshold of the model (code: 8); sizes are scaled in the harness
-          MaxOps, CopyOnWrite, CopyOnAppend, EmitOn
+          MaxOps, CopyOnWrite, CopyOnAppend,
+          OwnFrames,     \* TRUE: every call creates its own parameter bindings (the code); FALSE: see Frames
+          Kind,          \* "arr" or "map": which operations exist
+          EmitOn
 
 VARIABLES val,     \* value level: [Vars -> Seq(Int)]
           bind,    \* [Vars -> [id |-> store index, len |-> Nat]]
@@ -52,16 +72,71 @@ Fresh == 100 + Len(hist)      \* a value not yet in any array
 
 NewStore(elems) == [elems |-> elems, cap |-> Len(elems)]
 
+\* Elements are numbers; -n stands for the float n.0, the twin of the integer n: a different value that prints the same.
+Twin(e) == 0 - e
+InsertAt(s, i, v) == SubSeq(s, 1, i - 1) \o <<v>> \o SubSeq(s, i, Len(s))
+
+\* bind / stores part of y = x
+CopyImpl(x, y) ==
+  IF bind[x].len <= Small
+  THEN /\ stores' = Append(stores, NewStore(Read(bind[x])))
+       /\ bind' = [bind EXCEPT ![y] = [id |-> Len(stores) + 1, len |-> bind[x].len]]
+  ELSE /\ bind' = [bind EXCEPT ![y] = bind[x]]
+       /\ UNCHANGED stores
+
 \* y = x
 Copy(x, y) ==
   /\ x # y
   /\ val' = [val EXCEPT ![y] = val[x]]
-  /\ IF bind[x].len <= Small
-     THEN /\ stores' = Append(stores, NewStore(Read(bind[x])))          \* struct copy
-          /\ bind' = [bind EXCEPT ![y] = [id |-> Len(stores) + 1, len |-> bind[x].len]]
-     ELSE /\ bind' = [bind EXCEPT ![y] = bind[x]]                       \* shared backing store
-          /\ UNCHANGED stores
+  /\ CopyImpl(x, y)                  \* small: struct copy; large: shared backing store
   /\ hist' = Append(hist, [op |-> "copy", x |-> x, y |-> y])
+
+\* y = f(x), f(p) == { g(other container); p } where g's parameter has the same name as f's and g runs in a frame below
+\* f's (f itself one level deeper, or a closure made by this call of f): a copy at the value level.
+Frames(x, y) ==
+  /\ x # y
+  /\ val' = [val EXCEPT ![y] = val[x]]
+  /\ IF OwnFrames
+     THEN CopyImpl(x, y)
+     ELSE /\ stores' = Append(stores, NewStore(<<Fresh>>))      \* f's parameter now is what g was given
+          /\ bind' = [bind EXCEPT ![y] = [id |-> Len(stores) + 1, len |-> 1]]
+  /\ hist' = Append(hist, [op |-> "frames", x |-> x, y |-> y])
+
+\* x[i] = the twin of x[i] (i = 1 first element, i = 2 last element): the printed form of x stays, its value changes
+Retype(x, which) ==
+  /\ bind[x].len > 0
+  /\ LET i == IF which = 1 THEN 1 ELSE bind[x].len
+         v == Twin(val[x][i])
+     IN /\ val' = [val EXCEPT ![x] = [@ EXCEPT ![i] = v]]
+        /\ IF CopyOnWrite \/ bind[x].len <= Small
+           THEN /\ stores' = Append(stores, NewStore([Read(bind[x]) EXCEPT ![i] = v]))
+                /\ bind' = [bind EXCEPT ![x] = [id |-> Len(stores) + 1, len |-> bind[x].len]]
+           ELSE /\ stores' = [stores EXCEPT ![bind[x].id].elems[i] = v]
+                /\ UNCHANGED bind
+        /\ hist' = Append(hist, [op |-> "twin", x |-> x, which |-> which, v |-> v])
+
+\* maps: x[k] = v for a key k that x does not hold, next to one it holds: which = 1 just below the first key, 2 just
+\* below the last key (between the last two), 3 just above the last key.  The map grows by index assignment.
+Insert(x, which) ==
+  /\ which = 2 => bind[x].len >= 2
+  /\ which = 3 => bind[x].len >= 1
+  /\ LET n == bind[x].len
+         i == CASE which = 1 -> 1 [] which = 2 -> n [] OTHER -> n + 1
+         v == Fresh
+     IN /\ val' = [val EXCEPT ![x] = InsertAt(@, i, v)]
+        /\ IF CopyOnWrite \/ n <= Small
+           THEN /\ stores' = Append(stores, NewStore(InsertAt(Read(bind[x]), i, v)))
+                /\ bind' = [bind EXCEPT ![x] = [id |-> Len(stores) + 1, len |-> n + 1]]
+           ELSE /\ stores' = [stores EXCEPT ![bind[x].id].elems = InsertAt(@, i, v)]   \* into the shared storage
+                /\ bind' = [bind EXCEPT ![x].len = n + 1]
+  /\ hist' = Append(hist, [op |-> "insert", x |-> x, which |-> which])
+
+\* maps: del(x[k]) for a key k that x does not hold (which = 1 just below the first key - any key when x is empty -,
+\* 2 just below the last key): nothing changes.
+DelAbsent(x, which) ==
+  /\ which = 2 => bind[x].len >= 2
+  /\ UNCHANGED <<val, bind, stores>>
+  /\ hist' = Append(hist, [op |-> "delabsent", x |-> x, which |-> which])
 
 \* x[i] = v  (i = 1 first element, i = 2 last element)
 SetElem(x, which) ==
@@ -146,10 +221,14 @@ Next ==
   /\ \/ \E x, y \in Vars : Copy(x, y)
      \/ \E x \in Vars, w \in {1, 2} : SetElem(x, w)
      \/ \E x, y \in Vars : AppendTo(x, y)
-     \/ \E x, z, y \in Vars : Concat(x, z, y)
+     \/ Kind = "arr" /\ \E x, z, y \in Vars : Concat(x, z, y)
      \/ \E x, y \in Vars : CallMutate(x, y)
      \/ \E x \in Vars : Shrink(x)
-     \/ \E x, y \in Vars, w \in {1, 2} : Overwrite(x, y, w)
+     \/ Kind = "map" /\ \E x, y \in Vars, w \in {1, 2} : Overwrite(x, y, w)
+     \/ \E x \in Vars, w \in {1, 2} : Retype(x, w)
+     \/ \E x, y \in Vars : Frames(x, y)
+     \/ Kind = "map" /\ \E x \in Vars, w \in {1, 2, 3} : Insert(x, w)
+     \/ Kind = "map" /\ \E x \in Vars, w \in {1, 2} : DelAbsent(x, w)
   /\ Emit
 
 Spec == Init /\ [][Next]_vars
